@@ -79,7 +79,7 @@ Lookup(S, d, name, k) ==
   ELSE IF ~IsDir(S, d) THEN Fail(S, NotDirErr(k))
   ELSE IF k = "dot" THEN Succ(S, [id |-> d])
   ELSE IF k = "dotdot" THEN Succ(S, [id |-> S.ino[d].par])
-  ELSE IF k # "plain" THEN NameErr(S, k)
+  ELSE IF k # "plain" THEN (IF Dead(S, d) THEN Fail(S, AnyErr) ELSE NameErr(S, k))
   ELSE IF name \notin Names(S, d) THEN Fail(S, {"ENOENT"})
   ELSE Succ(S, [id |-> S.dent[d][name]])
 
@@ -95,6 +95,7 @@ NewInode(t, c, mode, rdev, tgt, tsize, par) ==
 CreateErr(S, c, d, name, k) ==
   IF d \notin Ids(S) THEN {"EBADF"}
   ELSE IF ~IsDir(S, d) THEN (IF k \in {"empty", "long"} THEN {"EGEN"} ELSE {"ENOTDIR"})
+  ELSE IF Dead(S, d) /\ k # "plain" THEN {"EGEN"}      \* removed directory: which check comes first is not pinned
   ELSE IF k \in {"dot", "dotdot"} THEN {"EEXIST", "EINVAL", "ENOTEMPTY", "EBUSY", "EISDIR", "EPERM"}   \* gated by the A level anyway
   ELSE IF k = "empty" THEN {"ENOENT"}
   ELSE IF k = "long" THEN {"ENAMETOOLONG"}
@@ -125,7 +126,7 @@ DropName(S, d, name) == [S.dent EXCEPT ![d] = Restrict(@, DOMAIN @ \ {name})]
 Unlink(S, d, name, k) ==
   IF d \notin Ids(S) THEN Fail(S, {"EBADF"})
   ELSE IF ~IsDir(S, d) THEN Fail(S, NotDirErr(k))
-  ELSE IF k # "plain" THEN (IF k \in {"dot", "dotdot"} THEN Fail(S, AnyErr) ELSE NameErr(S, k))
+  ELSE IF k # "plain" THEN (IF k \in {"dot", "dotdot"} \/ Dead(S, d) THEN Fail(S, AnyErr) ELSE NameErr(S, k))
   ELSE IF name \notin Names(S, d) THEN Fail(S, {"ENOENT"})
   ELSE LET x == S.dent[d][name] IN
        IF IsDir(S, x) THEN Fail(S, {"EISDIR"})
@@ -133,7 +134,7 @@ Unlink(S, d, name, k) ==
 Rmdir(S, d, name, k) ==
   IF d \notin Ids(S) THEN Fail(S, {"EBADF"})
   ELSE IF ~IsDir(S, d) THEN Fail(S, NotDirErr(k))
-  ELSE IF k # "plain" THEN (IF k \in {"dot", "dotdot"} THEN Fail(S, AnyErr) ELSE NameErr(S, k))
+  ELSE IF k # "plain" THEN (IF k \in {"dot", "dotdot"} \/ Dead(S, d) THEN Fail(S, AnyErr) ELSE NameErr(S, k))
   ELSE IF name \notin Names(S, d) THEN Fail(S, {"ENOENT"})
   ELSE LET x == S.dent[d][name] IN
        IF ~IsDir(S, x) THEN Fail(S, {"ENOTDIR"})
